@@ -860,9 +860,13 @@ func runCase(w *tr.Writer, seed uint64, idx int, focus string) {
 			// Wake: it is shunted to the low-priority queue, and the OnTraffic it leads to returns Shutdown -- which
 			// must end the engine like a Shutdown from anywhere else (C06)
 			if ci := h.byCid(peers[0].cid); ci != nil && ci.c != nil {
+				// the "park" message: its OnTraffic holds the loop until the requests below are queued
+				pm := []byte("park")
+				pn, _ := peers[0].conn.Write(pm)
+				peers[0].sent = append(peers[0].sent, pm[:pn]...)
 				select {
 				case <-h.inTraffic:
-				case <-time.After(time.Second):
+				case <-time.After(2 * time.Second):
 				}
 				for i := 0; i < 1100; i++ {
 					data := []byte(fmt.Sprintf("%07d ", i))
@@ -880,9 +884,13 @@ func runCase(w *tr.Writer, seed uint64, idx int, focus string) {
 		if cfg.scenario == "async-flood" && len(peers) > 0 {
 			// 1500 asynchronous writes are issued while the loop is busy inside OnTraffic
 			if ci := h.byCid(peers[0].cid); ci != nil && ci.c != nil {
+				// the "park" message: its OnTraffic holds the loop until the requests below are queued
+				pm := []byte("park")
+				pn, _ := peers[0].conn.Write(pm)
+				peers[0].sent = append(peers[0].sent, pm[:pn]...)
 				select {
 				case <-h.inTraffic:
-				case <-time.After(time.Second):
+				case <-time.After(2 * time.Second):
 				}
 				for i := 0; i < 1500; i++ {
 					data := []byte(fmt.Sprintf("%07d ", i))
